@@ -33,6 +33,28 @@ def lin(t):
         return t, off
 
 
+def flat_sum(t):
+    """-> (non-constant summands, constant) of a nested sum"""
+    atoms, c = [], 0
+    work = [t]
+    while work:
+        x = work.pop()
+        if is_const(x) and isinstance(x[1], int):
+            c += x[1]
+        elif isinstance(x, tuple) and x and x[0] == "binop" and x[1] in ("Add", "AddUnchecked"):
+            work += [x[3], x[2]]
+        else:
+            atoms.append(x)
+    return atoms, c
+
+
+def same_sum(a, b):
+    """a and b are the same sum up to association, commutation and constant folding"""
+    xa, ca = flat_sum(a)
+    xb, cb = flat_sum(b)
+    return ca == cb and sorted(map(repr, xa)) == sorted(map(repr, xb))
+
+
 AXIOMS = []
 
 
@@ -234,16 +256,17 @@ class Zone:
     def _sum_rewrite(self, op, a, b):
         """p + q (op) b  <=>  q (op) b - p  when the exact difference b - p is a term of the path (three-variable facts
         that a difference-bound matrix cannot hold directly)"""
-        if not (isinstance(a, tuple) and a[0] == "binop" and a[1] == "Add" and not is_const(a[3])):
+        atoms, c = flat_sum(a)
+        if len(atoms) != 2:
             return False
-        p, q = a[2], a[3]
+        p, q = atoms
         for x, y in ((p, q), (q, p)):
             d = ("binop", "Sub", b, x)
             if d in self.all_terms and self.entails_raw_le(x, b):
                 xa, oa = lin(y)
                 xb, ob = lin(d)
                 w = self.diff_ub(xa, xb)
-                if w is not None and w <= ob - oa - (1 if op == "Lt" else 0):
+                if w is not None and w <= ob - oa - c - (1 if op == "Lt" else 0):
                     return True
         return False
 
